@@ -238,7 +238,7 @@ PROPS = {
     "C01": dict(
         level="exploration",
         rule=("rapidcheck-generated kriging configurations: 1-3D data sets with distinct locations (n<=40), 1-3 variables, NA patterns (heterotopy), measurement-error "
-              "variances, valid nested anisotropic rotated models (known means / order 0-2 drift / 1-2 external drifts / intrinsic structures), unique or moving "
+              "variances, valid nested anisotropic rotated models (known means / order 0-2 drift / 1-2 external drifts / intrinsic structures), unique, bench or moving "
               "neighbourhood (sectors), point or block targets (unrotated and rotated grids), matLC, cross-validation; oracle: the system [Sigma X; Xt 0] is "
               "assembled in the harness from Model::eval (plain bi-point evaluation) and the harness's own drift functions over exactly the neighbourhood samples "
               "and solved in long double with full-pivot LU; estim, stdev^2, varz of kriging() and the residuals of krigtest().wgt/.zam (and lhs/rhs) must be within "
@@ -258,6 +258,7 @@ PROPS = {
             sub("extdrift", "c01_kriging", 2000, 43000, qw=1, tw=2),
             sub("cokriging", "c01_kriging", 2000, 43000, qw=1, tw=2),
             sub("moving", "c01_kriging", 2000, 43000, qw=1, tw=2),
+            sub("bench", "c01_kriging", 1500, 30000, qw=1, tw=2),
             sub("block", "c01_kriging", 1200, 24000, qw=1, tw=2),
             sub("block_rotated", "c01_kriging", 1200, 24000, qw=1, tw=2),
             sub("verr", "c01_kriging", 2000, 43000, qw=1, tw=2),
